@@ -577,6 +577,48 @@ def ownership(ctx, world):
                 ctx.fail("A9.pure", f"{label}:result", f"autograd.core.{path}:returns-result", loc_of(m2, n2), f"{label} does not return the value its accumulation call produced (an accumulator is free to build a new value: container cotangents do)", "a tuple/list/dict of scalars receiving two dense contributions and then an indexed one: the indexed contribution is built into a new container that is thrown away")
 
 
+def owned_flags(ctx, world):
+    """A9.proto, call-site clause: outside add_outgrads itself a flagged pair `(value, True)` - "this buffer is mine,
+    accumulate into it in place" - may only be written for a value the writer allocated (zeros / a copy / the result of
+    add or mut_add(None, .)).  Seeding an accumulation with (first_term, True) lets every later term be added INTO the
+    first term's memory."""
+    ctx.describe("A9.proto", "call sites: wherever the library writes a flagged cotangent pair (value, True) by hand - as the initial value of a reduce(add_outgrads, ..), as the first operand of add_outgrads, or stored in the cotangent table of the backward pass - the value is freshly allocated by the writer; borrowed values enter as (value, False) or None")
+    n = 0
+    for mod in world.repo.mods.values():
+        if mod.name.startswith(("autograd.scipy", "autograd.misc", "autograd.test_util")):
+            continue
+        for fq, fnode in mod.functions():
+            if fq.split(".")[-1] == "add_outgrads":
+                continue
+            for x in ast.walk(fnode):
+                if not (isinstance(x, ast.Tuple) and len(x.elts) == 2 and isinstance(x.elts[1], ast.Constant) and isinstance(x.elts[1].value, bool)):
+                    continue
+                # is this pair handed to the accumulation?
+                p_ = getattr(x, "_parent", None)
+                used = False
+                if isinstance(p_, ast.Call):
+                    r_ = world.repo.resolve_expr(mod, p_.func)
+                    q_ = r_.qual if r_ is not None else ""
+                    if q_ == "autograd.core.add_outgrads" and p_.args and p_.args[0] is x:
+                        used = True
+                    if q_ == "functools.reduce" and len(p_.args) == 3 and p_.args[2] is x:
+                        r0 = world.repo.resolve_expr(mod, p_.args[0])
+                        used = r0 is not None and r0.qual == "autograd.core.add_outgrads"
+                if isinstance(p_, ast.Dict) and fq.split(".")[-1] == "backward_pass":
+                    used = True
+                if not used:
+                    continue
+                n += 1
+                inst = f"{fq}:{norm_text(x)[:40]}"
+                v = x.elts[0]
+                fresh = isinstance(v, ast.Call) and isinstance(v.func, ast.Attribute) and (v.func.attr in ("zeros", "ones", "copy") or (v.func.attr in ("mut_add", "add") and v.args and isinstance(v.args[0], ast.Constant) and v.args[0].value is None))
+                if x.elts[1].value is False or fresh:
+                    ctx.ob("A9.proto", inst, True, loc_of(mod, x))
+                else:
+                    ctx.fail("A9.proto", inst, f"{fq}|owned-flag:{norm_text(v)[:40]}", loc_of(mod, x), f"`{norm_text(x)[:60]}` marks `{norm_text(v)[:40]}` as an owned buffer, but this function did not allocate it: the next contribution is added into that value in place", "a primitive whose (co)tangent contribution aliases one of its inputs (an identity-like linear primitive): the caller's array is overwritten")
+    ctx.floor("A9.proto hand-written flagged pairs", n, 1)
+
+
 # ----------------------------------------------------------------------------------------- purity of VSpace ops / in-place sites
 PURE_METHODS = ("_add", "_scalar_mul", "_covector", "_inner_prod", "zeros", "ones", "standard_basis", "randn")
 FRESH_CALLS = {"zeros", "ones", "empty", "full", "zeros_like", "ones_like", "empty_like", "array", "copy", "arange", "eye", "list", "dict", "set", "tile", "diagonal_fresh", "OrderedDict", "defaultdict", "deque", "Counter", "bytearray", "frozenset", "tuple"}
